@@ -260,7 +260,7 @@ def helper_kind(repo, func, call):
         return None
     sh = helper_shape(h)
     if sh is None:
-        return None
+        return helper_kind_by_evaluation(h)
     neg, pvar, pred, par = sh
     try:
         val = {name: _eval_pred(pred, pvar, st) for name, st in PSTATES.items()}
@@ -291,6 +291,162 @@ def helper_kind(repo, func, call):
         out.update(kind="exit_any_zero", polarity=not neg, problem=None)
         return out
     out.update(kind="exitcode", polarity=True, problem=f"the per-process exit-code condition `{norm(pred)}` does not separate clean exit (0) from abnormal termination (positive code, death by signal): {tv}")
+    return out
+
+
+class _Raise(Exception):
+    pass
+
+
+def _eval_list_fn(h, states):
+    """Value of the process-list predicate `h` on a list of abstract processes (tiny interpreter over the statement and
+    expression kinds such predicates use: for / if / return, any / all / max / min / sum / len over comprehensions,
+    comparisons, `p.exitcode`, `p.is_alive()`).  Raises _PredUnsupported outside that fragment, _Raise for a Python
+    exception of the evaluated code (e.g. comparing None with an int)."""
+    par = h.params[0]
+
+    class Ret(Exception):
+        def __init__(self, v):
+            self.v = v
+
+    def ev(e, env):
+        if isinstance(e, ast.Constant):
+            return e.value
+        if isinstance(e, ast.Name):
+            if e.id in env:
+                return env[e.id]
+            raise _PredUnsupported(e.id)
+        if isinstance(e, ast.UnaryOp):
+            v = ev(e.operand, env)
+            if isinstance(e.op, ast.Not):
+                return not v
+            if isinstance(e.op, ast.USub):
+                return -v
+            raise _PredUnsupported(norm(e))
+        if isinstance(e, ast.BoolOp):
+            v = None
+            for x in e.values:
+                v = ev(x, env)
+                if isinstance(e.op, ast.And) and not v:
+                    return v
+                if isinstance(e.op, ast.Or) and v:
+                    return v
+            return v
+        if isinstance(e, ast.Attribute):
+            o = ev(e.value, env)
+            if isinstance(o, tuple) and len(o) == 2 and e.attr == "exitcode":
+                return o[1]
+            raise _PredUnsupported(norm(e))
+        if isinstance(e, ast.Call):
+            if isinstance(e.func, ast.Attribute) and e.func.attr == "is_alive" and not e.args:
+                o = ev(e.func.value, env)
+                return o[0]
+            if isinstance(e.func, ast.Name) and e.func.id in ("any", "all", "max", "min", "sum", "len", "list", "set", "sorted", "bool", "abs") and e.args:
+                args = [ev(a, env) for a in e.args]
+                try:
+                    fn = {"any": any, "all": all, "max": max, "min": min, "sum": sum, "len": len, "list": list, "set": set, "sorted": sorted, "bool": bool, "abs": abs}[e.func.id]
+                    kw = {k.arg: ev(k.value, env) for k in e.keywords if k.arg in ("default",)}
+                    return fn(*args, **kw)
+                except (TypeError, ValueError) as ex:
+                    raise _Raise(type(ex).__name__)
+            raise _PredUnsupported(norm(e))
+        if isinstance(e, (ast.GeneratorExp, ast.ListComp, ast.SetComp)) and len(e.generators) == 1:
+            g_ = e.generators[0]
+            out = []
+            for item in ev(g_.iter, env):
+                env2 = dict(env)
+                if not isinstance(g_.target, ast.Name):
+                    raise _PredUnsupported(norm(g_.target))
+                env2[g_.target.id] = item
+                if all(ev(c, env2) for c in g_.ifs):
+                    out.append(ev(e.elt, env2))
+            return out
+        if isinstance(e, (ast.Tuple, ast.List)):
+            return [ev(x, env) for x in e.elts]
+        if isinstance(e, ast.Compare):
+            left = ev(e.left, env)
+            for op, r in zip(e.ops, e.comparators):
+                right = ev(r, env)
+                try:
+                    ok = {ast.Eq: lambda a, b: a == b, ast.NotEq: lambda a, b: a != b, ast.Lt: lambda a, b: a < b, ast.LtE: lambda a, b: a <= b, ast.Gt: lambda a, b: a > b, ast.GtE: lambda a, b: a >= b, ast.Is: lambda a, b: a is b, ast.IsNot: lambda a, b: a is not b, ast.In: lambda a, b: a in b, ast.NotIn: lambda a, b: a not in b}[type(op)](left, right)
+                except TypeError:
+                    raise _Raise("TypeError")
+                if not ok:
+                    return False
+                left = right
+            return True
+        raise _PredUnsupported(norm(e))
+
+    def run(stmts, env):
+        for st in stmts:
+            if isinstance(st, ast.Expr) and isinstance(st.value, ast.Constant):
+                continue
+            if isinstance(st, ast.Return):
+                raise Ret(ev(st.value, env) if st.value is not None else None)
+            if isinstance(st, ast.If):
+                run(st.body if ev(st.test, env) else st.orelse, env)
+            elif isinstance(st, ast.For) and isinstance(st.target, ast.Name):
+                for item in ev(st.iter, env):
+                    env[st.target.id] = item
+                    run(st.body, env)
+            elif isinstance(st, ast.Assign) and len(st.targets) == 1 and isinstance(st.targets[0], ast.Name):
+                env[st.targets[0].id] = ev(st.value, env)
+            elif isinstance(st, ast.AugAssign) and isinstance(st.target, ast.Name) and isinstance(st.op, ast.Add):
+                env[st.target.id] = env[st.target.id] + ev(st.value, env)
+            elif isinstance(st, ast.Pass):
+                continue
+            else:
+                raise _PredUnsupported(norm(st)[:40])
+
+    try:
+        run(h.node.body, {par: list(states)})
+    except Ret as r:
+        return r.v
+    return None
+
+
+def helper_kind_by_evaluation(h):
+    """Classify a process-list predicate of any shape by evaluating it on every list of up to three abstract processes."""
+    import itertools
+
+    if len(h.params) != 1:
+        return None
+    names = list(PSTATES)
+    table = {}
+    try:
+        for n in (1, 2, 3):
+            for combo in itertools.product(names, repeat=n):
+                try:
+                    table[combo] = bool(_eval_list_fn(h, [PSTATES[c] for c in combo]))
+                except _Raise as ex:
+                    table[combo] = "RAISES " + str(ex)
+    except _PredUnsupported:
+        return None
+    out = {"helper": h, "table": {" ".join(k): v for k, v in list(table.items())[:8]}, "problem": None}
+
+    def agrees(spec, domain=None):
+        for k, v in table.items():
+            if domain is not None and not domain(k):
+                continue
+            if v != spec(k):
+                return k, v
+        return None
+
+    dead_only = lambda k: all(x != "alive" for x in k)  # noqa: E731
+    for kind, pol, spec, dom in (
+        ("alive_any", True, lambda k: any(x == "alive" for x in k), None),
+        ("alive_any", False, lambda k: not any(x == "alive" for x in k), None),
+        ("dead_any", True, lambda k: any(x != "alive" for x in k), None),
+        ("dead_any", False, lambda k: not any(x != "alive" for x in k), None),
+        ("exit_all_zero", True, lambda k: all(x == "ok" for x in k), dead_only),
+        ("exit_all_zero", False, lambda k: not all(x == "ok" for x in k), dead_only),
+    ):
+        if agrees(spec, dom) is None:
+            out.update(kind=kind, polarity=pol)
+            return out
+    # an exit-code predicate that is wrong on some group of finished processes: name the group
+    w = agrees(lambda k: all(x == "ok" for x in k), dead_only)
+    out.update(kind="exitcode", polarity=True, problem=f"`{norm(h.node.body[-1])[:70]}` is not 'every process exited with code 0': for the finished group ({', '.join(w[0])}) it gives {w[1]}" if w else "the predicate matches none of the needed process-group facts")
     return out
 
 
